@@ -60,6 +60,13 @@ def main(argv=None) -> int:
     except proc.HarnessError as e:
         print("HARNESS ERROR: %s" % e, file=sys.stderr)
         return 2
+    except Exception:
+        # an exception of the machinery is never a verdict: exit 2, not Python's default 1
+        import traceback
+
+        traceback.print_exc()
+        print("HARNESS ERROR: unexpected exception in the check driver", file=sys.stderr)
+        return 2
     print("unknown check %r" % a.what, file=sys.stderr)
     return 2
 
